@@ -475,11 +475,11 @@ def _header_field(v, anywhere=False):
                 return "word", int(p[1][1].const_value()), q[1][0]
     if p[0] == "call:int" and len(p[1]) == 1 and _rat(p[1][0]):
         q = C.fn_parts(p[1][0])
-        if q is not None and q[0] == "ln" and q[1][1].is_zero():
+        if q is not None and q[0] == "ln" and (q[1][1].is_zero() or anywhere):
             return "line", 0, p[1][0]
         if q is not None and q[0] == "idx":
             base, sl = C.fn_parts(q[1][0]), C.fn_parts(q[1][1]) if _rat(q[1][1]) else None
-            if base is not None and base[0] == "ln" and base[1][1].is_zero() and sl is not None and sl[0] in ("call:slice", "slice"):
+            if base is not None and base[0] == "ln" and (base[1][1].is_zero() or anywhere) and sl is not None and sl[0] in ("call:slice", "slice"):
                 a, b = sl[1][0], sl[1][1]
                 if _rat(a) and _rat(b) and a.is_const() and b.is_const() and b.const_value() - a.const_value() == 8 and a.const_value() % 8 == 0:
                     return "field", int(a.const_value() // 8), q[1][0]
@@ -591,6 +591,34 @@ def r3_sibling_decoders(ctx):
             ok = tot is not None and _rat(L) and _rat(pl) and C.same(tot, 2 + C.floordiv(L - 1, pl), whole_values=False)
             ctx.check(ok, f"{reader}: a string is one header line plus ceil(L / perline) data lines for the L values it stores", lp.node,
                       None if ok else {"lines": repr(tot), "values": repr(L)})
+    # dense columns: the column header carries the (1-based) row of the first value
+    for loader, reader in (("_loadop4_ascii", "_rd_dense_ascii"), ("_loadop4_binary", "_rd_dense_binary")):
+        rf = ctx.src.func(OP4, "OP4." + reader)
+        w, _call = _loader_with(ctx, loader, reader)
+        if w is None:
+            continue
+        cols_ = C.loops_of_call(w, rf)
+        puts = _put_calls(w, cols_[0]) if len(cols_) == 1 else []
+        if len(puts) != 1:
+            ctx.error(f"{reader}: store call of the column loop", rf)
+            continue
+        col = cols_[0]
+        pf = ctx.src.func(OP4, "OP4._put_binary_values" if "binary" in reader else "OP4._put_ascii_values")
+        pnames = [a.arg for a in pf.args.args]
+        pa = place(puts[0][2], puts[0][3], pnames)
+        r = pa.get(pnames[1]) if len(pnames) > 1 else None
+        ok, detail = _rat(r), None
+        if ok:
+            P = r + 1
+            upd = [v for q, v in col.carry if q.equals(P)]
+            pp = C.fn_parts(P)
+            ent = pp[1][1] if pp is not None and pp[0] == "lv" and len(pp[1]) >= 2 and _rat(pp[1][1]) else None
+            h1 = _header_field(upd[0], anywhere=True) if len(upd) == 1 and _rat(upd[0]) else None
+            h0 = _header_field(ent, anywhere=True) if ent is not None else None
+            ok = h1 is not None and h0 is not None and h1[1] == 1 and h0[1] == 1 and h1[0] == h0[0] and h1[0] in ("word", "field")
+            if not ok:
+                detail = {"first row": repr(r)}
+        ctx.check(ok, f"{reader}: the first row of a dense column = (row field of its column header) - 1", puts[0][5], detail)
     # words per value of the ASCII loader: 1 for the odd (single precision) matrix types, 2 otherwise
     rd_ = res.get("_rd_nonbigmat_ascii") or res.get("_rd_bigmat_ascii")
     if rd_ is not None:
@@ -772,6 +800,10 @@ def r4_read_equals_skip(ctx):
             if ok:
                 r = C.fn_parts(hf[2])
                 ok = r is not None and C.same(r[1][1], F.const(4))
+            # the first record is read for every matrix with a column: the test holds on entry whenever cols >= 1
+            if ok:
+                et = C.fn_parts(C.norm(lp.entry_test()))
+                ok = et is not None and et[0] == "ge0" and (et[1][0] - cols).is_const() and (et[1][0] - cols).const_value() >= -1
         ctx.check(ok, "_skipop4_binary: per column record 4 + reclen + 4 bytes; the column number is the first header word; stops after the sentinel "
                       "column cols + 1", sb.fn, None if ok else C.show(sb.top.items)[:300])
     for reader in ("_rd_dense_binary", "_rd_bigmat_binary", "_rd_nonbigmat_binary"):
@@ -852,6 +884,7 @@ def r4_read_equals_skip(ctx):
         ctx.check(ok, "_skipop4_ascii: one column-header line, one of three column loops (dense, bigmat, nonbigmat), one trailing line", skf,
                   None if ok else C.show(sk.top.items)[:300])
         used = set()
+        matched = {}
         for reader, label in (("_rd_dense_ascii", "dense"), ("_rd_bigmat_ascii", "bigmat"), ("_rd_nonbigmat_ascii", "nonbigmat")):
             rf = ctx.src.func(OP4, "OP4." + reader)
             w, call = _loader_with(ctx, "_loadop4_ascii", reader)
@@ -886,11 +919,71 @@ def r4_read_equals_skip(ctx):
             ctx.check(ok, f"{reader} and the {label} arm of _skipop4_ascii consume the same lines column by column and string by string "
                           "(ceil(n / perline) data lines per block; (L + p - 1)//p == (L - 1)//p + 1), decode the same header fields and stop on the same "
                           "column test", col.node, None if ok else {"read": C.show(mine.items)[:300], "differences": whys})
+            matched[reader] = (hit, mapping)
             # around the loop: the loader reads one column-header line before and one trailing line after the reader
             post = [t for lp, t in _after_loops(w.top.items) if lp is col]
             t = C.total(_until_exit(post[0]), "L") if len(post) == 1 else None
             ok = t is not None and C.same(t, F.const(1))
             ctx.check(ok, f"_loadop4_ascii ({label}): one trailing line is read after the matrix, as the skipper does", w.fn, nontrivial=False)
+        r4b_layout_dispatch(ctx, sk, sk_loops, matched)
+
+
+def _selected(v, target):
+    """boolean form of `the selection v (a tree of phi over method symbols) is `target``"""
+    p = C.fn_parts(v) if _rat(v) else None
+    if p is not None and p[0] == "phi":
+        c, a, b = p[1]
+        bc = C.bool_form(c)
+        return ("or", [("and", [bc, _selected(a, target)]), ("and", [("not", bc), _selected(b, target)])])
+    if C.sym_name(v) is not None:
+        return ("const", C.sym_name(v) == target)
+    raise Unsupported(f"selection of a reader cannot be lowered: {v!r}")
+
+
+def r4b_layout_dispatch(ctx, sk, sk_loops, matched):
+    """the ASCII skipper takes the dense / bigmat / nonbigmat arm exactly when the loader selects the dense / bigmat / nonbigmat reader
+    (for a matrix that has at least one column to read: with none, no arm reads anything)"""
+    lf = ctx.src.func(OP4, "OP4._loadop4_ascii")
+    rf = ctx.src.func(OP4, "OP4._rd_dense_ascii")
+    call = _reader_call(lf, _nparams(rf))
+    if call is None or not ctx.src.has_func(OP4, "OP4._get_funcs"):
+        ctx.error("_loadop4_ascii: selection of the reader", lf)
+        return
+    gf = ctx.src.func(OP4, "OP4._get_funcs")
+    w = _w4(ctx, "_loadop4_ascii", tag="dispatch", indirect={id(call): rf}, no_inline={"self._skipop4_ascii", "self._skipop4_binary"},
+            extra_inline={"self._get_funcs"})
+    if w is None:
+        return
+    disp = [e for e in w.events if e[0] == "dispatch"]
+    gb = w.bound.get(id(gf), {})
+    gparams = [a.arg for a in gf.args.args][1:]
+    allz = gb.get("allzeros", gb.get(gparams[-1]) if gparams else None)
+    if len(disp) != 1 or not _rat(disp[0][1]) or not _rat(allz):
+        ctx.error("_loadop4_ascii: selection of the reader", lf, {"calls": len(disp)})
+        return
+    a = _skip_args(w, sk.fn)
+    line0 = [e[1] for e in w.events if e[0] == "line" and C.fn_parts(e[1])[1][0].equals(w.top.id)]
+    if a is None or not line0:
+        ctx.error("_loadop4_ascii: values passed to the skipper", lf)
+        return
+    ren = C.renamer([(v, F.sym(k)) for k, v in a.items() if _rat(v) and C.as_atom(v) is not None] + [(line0[0], F.sym("LINE0"))])
+    ren_s = C.renamer([(F.fn("ln", sk.top.id, F.const(0)), F.sym("LINE0"))])
+    sel, none = ren(disp[0][1]), C.bool_form(ren(allz))
+    for reader, label in (("_rd_dense_ascii", "dense"), ("_rd_bigmat_ascii", "bigmat"), ("_rd_nonbigmat_ascii", "nonbigmat")):
+        if reader not in matched or matched[reader][0] is None:
+            continue
+        lp = sk_loops[matched[reader][0]]
+        try:
+            want = _selected(sel, "self." + reader)
+            got = C.guard_form(tuple((ren_s(c), pol) for c, pol in lp.guard))
+            keys = set(C.bool_atoms(want)) | set(C.bool_atoms(got)) | set(C.bool_atoms(none))
+            ok = all(C.bool_eval(want, asg) == C.bool_eval(got, asg) for asg in C.assignments(keys) if not C.bool_eval(none, asg))
+        except Unsupported as e:
+            ctx.error(f"_skipop4_ascii / _get_funcs: condition of the {label} layout", lp.node, str(e))
+            continue
+        ctx.check(ok, f"_skipop4_ascii takes its {label} arm exactly when the loader selects {reader} (same tests on the column header's row field and "
+                      "on the announced number of rows), for every matrix that has a column to read", lp.node,
+                  None if ok else {"skipper": [(repr(C.norm(ren_s(c))), pol) for c, pol in lp.guard], "loader": repr(C.norm(sel))[:400]})
 
 
 # ------------------------------------------------------------------------------------------------------------------ R5
@@ -935,6 +1028,23 @@ def r5_listing_equals_read(ctx):
                   None if ok else {"listing returns": len(lst), "full returns": len(full)})
         ok = len(lst) == 1 and len(full) == 1 and all(C.same(lst[0][0][i], full[0][0][i]) for i in (0, 2, 3))
         ctx.check(ok, f"{loader}: a full read returns (name, X, form, mtype) with the same name / form / type values as the listing", fn)
+        if len(lst) == 1 and isinstance(lst[0][0][1], tuple) and len(lst[0][0][1]) == 2:
+            size = lst[0][0][1]
+            for other in (("_rd_dense_ascii", "_rd_bigmat_ascii", "_rd_nonbigmat_ascii") if kindr == "ascii"
+                          else ("_rd_dense_binary", "_rd_bigmat_binary", "_rd_nonbigmat_binary")):
+                w2, _c2 = _loader_with(ctx, loader, other)
+                if w2 is None:
+                    continue
+                def triple(k, nargs):
+                    return [e for e in w2.events if e[0] == "call" and e[6] is not None and _rat(e[6]) and (C.fn_parts(e[6]) or ("",))[0] == "idx"
+                            and C.fn_parts(e[6])[1][1].equals(F.const(k)) and len(e[2]) == nargs]
+                ini, fin = triple(0, 2), triple(2, 3)
+                if len(ini) != 1 or len(fin) != 1:
+                    ctx.error(f"{other}: allocation / return through the (init, put, return) triple", ctx.src.func(OP4, "OP4." + other))
+                    continue
+                ok = all(C.same(size[i], ini[0][2][i]) and C.same(size[i], fin[0][2][i]) for i in (0, 1))
+                ctx.check(ok, f"{other}: the matrix is allocated and returned with the (rows, cols) a listing reports", ini[0][5],
+                          None if ok else {"listing": [repr(x) for x in size], "init": [repr(x) for x in ini[0][2]], "return": [repr(x) for x in fin[0][2][:2]]})
         name = lst[0][0][0] if len(lst) == 1 else None
         skips = [e for e in w.events if e[0] == "call" and e[1] == skipper]
         ok = len(skips) >= 1 and _rat(name)
@@ -1010,7 +1120,7 @@ def r5_listing_equals_read(ctx):
                 got = set()
                 for _p, v in C.leaves(list(size)):
                     got.add((repr(C.norm(v[0])), repr(C.norm(v[1]))))
-                ok = (repr(C.norm(want[0])), repr(C.norm(want[1]))) in got and len(got) == 2 and ("0", "0") in got
+                ok = (repr(C.norm(want[0])), repr(C.norm(want[1]))) in got
         ctx.check(ok, "directory reports matrix sizes from trailer[2] x trailer[1] of the trailer it stores, the fields rdop2matrix allocates from", d.fn)
         rmw = _w2(ctx, "_rdmat", follow=False)
         if rmw is not None:
@@ -1111,15 +1221,26 @@ def r6b_matrix_rows(ctx):
     stores = [(nm, ix, val, st) for nm, ix, val, st in w.all_cells if any(st is x for x in ast.walk(lp.node))]
     row = F.fn("idx", F.fn("dec", F.fn("rd", lp.frame, F.const(4), KEYB)), F.const(0))     # the word after the record length
     n = 0
+    outer = [lp2 for lp2 in C.loops_in(w.top.items) if any(x is lp for x in C.loops_in(lp2.items, deep=False))]
     for nm, ix, val, st in stores:
         p = C.fn_parts(ix) if _rat(ix) else None
-        if p is None or p[0] != "tuple" or len(p[1]) != 2:
-            continue
-        sl = C.fn_parts(p[1][0]) if _rat(p[1][0]) else None
-        if sl is None or sl[0] != "slice" or not _rat(sl[1][0]) or not _rat(sl[1][1]):
+        sl = C.fn_parts(p[1][0]) if p is not None and p[0] == "tuple" and len(p[1]) == 2 and _rat(p[1][0]) else None
+        shaped = sl is not None and sl[0] == "slice" and _rat(sl[1][0]) and _rat(sl[1][1])
+        ctx.check(shaped, "rdop2matrix: the values of a record go to a range of rows of one column (rows first, column second)", st,
+                  None if shaped else {"index": repr(ix)})
+        if not shaped:
             continue
         n += 1
         lo, up = sl[1][0], sl[1][1]
+        # the column: a counter of the column loop that starts at 0 and advances by one per column
+        colv = p[1][1]
+        pc = C.fn_parts(colv) if _rat(colv) else None
+        ok = len(outer) == 1 and pc is not None and pc[0] == "lv" and pc[1][0].equals(outer[0].frame) and _rat(pc[1][1]) and pc[1][1].is_zero()
+        if ok:
+            upd = [v for q, v in outer[0].carry if q.equals(colv)]
+            ok = len(upd) == 1 and _rat(upd[0]) and C.same(upd[0], colv + 1)
+        ctx.check(ok, "rdop2matrix: the column a record is stored in counts the columns read so far (0 for the first, one more after each "
+                      "column's records)", st, None if ok else {"column index": repr(colv)})
         ok = C.same(up - lo, site["count_ff"], whole_values=False)
         ctx.check(ok, "rdop2matrix: a record's values are stored in as many rows as values were decoded", st, None if ok else {"rows": repr(up - lo)})
         # reals per value: the factor by which the allocation multiplies the trailer's row count (2 for the complex types, stored as pairs)
@@ -1140,6 +1261,38 @@ def r6b_matrix_rows(ctx):
         ctx.check(good, "rdop2matrix: the first row of a record is its (1-based) row number - 1, times the reals per value the matrix was allocated "
                         "with (2 for the complex types)", st, detail)
     ctx.check(n >= 1, f"matrix placement rule bound to {n} stores", w.fn, nontrivial=False)
+    # the result is viewed as complex exactly when the rows were allocated by pairs of reals
+    rets = [r for r in w.returns if _rat(r[0])]
+    alloc = None
+    for _k, v, _st in w.all_inits:
+        q = C.fn_parts(v) if _rat(v) else None
+        if q is not None and q[0] in ("call:np.zeros", "call:np.empty") and _rat(q[1][0]):
+            shp = C.fn_parts(q[1][0])
+            if shp is not None and shp[0] == "tuple" and len(shp[1]) == 2:
+                alloc = shp[1][0]
+    trows = F.fn("idx", F.sym(w.fn.args.args[1].arg), F.const(2)) if len(w.fn.args.args) > 1 else None
+    views = [(v, st) for _nm, v, st in w.all_inits if _rat(v) and any(d[0] == "fn" and d[1].endswith(".view") for d in C.walk_atoms(v))]
+    if len(rets) == 1 and alloc is not None and trows is not None and len(views) == 1:
+        # decided for the four Nastran matrix types (1, 2 real; 3, 4 complex): the type field of the trailer is given each value in turn
+        mt = F.fn("idx", F.sym(w.fn.args.args[1].arg), F.const(4))
+        good, detail, undecided = True, None, None
+        for k in (1, 2, 3, 4):
+            sub = C.renamer([(mt, F.const(k))])
+            al = C.settle(sub(alloc))
+            ts = [(C.truth_of(C.settle(sub(c))), pol) for c, pol in w.init_guards.get(id(views[0][1]), ()) if _rat(c)]
+            if any(t is None for t, _pol in ts) or any(d[0] == "fn" and d[1] == "phi" for d in C.walk_atoms(al)):
+                undecided = f"type {k}"
+                continue
+            viewed = all(t == pol for t, pol in ts)
+            if viewed != C.same(al, 2 * trows):
+                good, detail = False, {"matrix type": k, "rows allocated": repr(C.norm(al)), "viewed as complex": viewed}
+        if good and undecided is not None:
+            ctx.error("rdop2matrix: condition of the complex view", views[0][1], undecided)
+        else:
+            ctx.check(good, "rdop2matrix: the matrix is viewed as complex (pairs of reals) exactly for the types whose rows were allocated by pairs "
+                            "(checked for the matrix types 1 to 4)", views[0][1], detail)
+    else:
+        ctx.error("rdop2matrix: allocation / complex view of the returned matrix", w.fn)
 
 
 # ------------------------------------------------------------------------------------------------------------------ R7
